@@ -4,8 +4,8 @@ import json, os
 V = os.path.dirname(os.path.dirname(os.path.abspath(__file__)))
 TECH_T = "contract-based deductive verification: Verus (SMT/Z3) on handler bodies extracted mechanically from rustc's expansion of /repo/src, with interference points woven around every shared access; rely/guarantee with auxiliary (ticket) variables; the only assumed function is the interference itself"
 TECH = "contract-based deductive verification: Verus (SMT/Z3) on handler bodies extracted mechanically from rustc's expansion of /repo/src, woven into requires/ensures/invariant contracts with a verified most-general conformant environment"
-NOTE = ("Assumes: extraction rules R1-R13 (DESIGN 3.3) are faithful; sequential cell shims for atomics/ArcSwap/RwLock; user closures deterministic and non-reentrant; "
-        "peers spec-conformant; the assume/guarantee meta-argument of DESIGN 2.7; partial correctness; Verus/Z3. ")
+NOTE = ("Assumes: extraction rules R1-R17 (DESIGN 3.3) are faithful; sequential cell shims for atomics/ArcSwap/RwLock; user closures deterministic and non-reentrant; "
+        "peers spec-conformant; the assume/guarantee meta-argument of DESIGN 2.6; partial correctness; Verus/Z3. ")
 NOTE_T = ("Assumes: extraction rules (DESIGN 3.3) are faithful; sequentially consistent interleaving at shared-access granularity (memory orderings ignored), fetch_* / fetch_update / rcu atomic; "
           "`interfere_raw`/`call_raw` = any number of steps of the other threads preserving the invariant and the rely; that every thread's checked guarantee implies the others' rely is the rely/guarantee meta-argument (DESIGN 2.7), not machine-checked; "
           "one member = one thread that does not overlap its own deliveries; passive sink; partial correctness; Verus/Z3. ")
@@ -22,7 +22,7 @@ CLAIMS = {
     "C09": ("n >= 1 in the unit concat, n == 0 in the unit concat0", "lazy-subscription gate (member k+1 only after member k completed), member-order data relation over a recursive concatenation, re-issued Pull postcondition"),
     "C10": ("one generated contract per arity 1..3 of the macro", "latest-value tuple gate at every emission (COMBINE_TUPLE), exactly-one-tuple-per-datum counter invariant, counters tied to member phases, completion gate, Pull-reaches-every-running-member postcondition"),
     "C11": ("", "generation ghost: previous-inner-disposed gate at every inner subscription, routing gate on Pulls, completion gate, one Pull per inner greeting, arrival-order data relation"),
-    "C12": ("profile R as the property quantifies: attaches at top level, only the sink being delivered to acts, the source answers inside a delivery only when it is the last of its fan-out; nested fan-out is explored by the bounded supplement on every run (finding F4 there was repaired)", "reference-count invariant (list non-empty <=> upstream alive), position ghost tying attached sinks to list entries, fan-out loop invariant over the snapshot, postconditions: every attached sink gets every datum / the termination / the error"),
+    "C12": ("profile R as the property quantifies: attaches at top level, only the sink being delivered to acts, the source answers inside a delivery only when it is the last of its fan-out; nested fan-out, another sink acting or attaching during a delivery and a late upstream are explored by the bounded supplement on every run (findings F4, F12, F13, F14 there were repaired)", "reference-count invariant (list non-empty <=> upstream alive), position ghost tying attached sinks to list entries, loop invariants of the data fan-out over a snapshot and of the hand-round of an end (list emptied at once, the sinks still owed the end kept in a second cell), postconditions: every attached sink gets every datum / the termination / the error"),
     "C13": ("", "every cell is allocated inside the subscription handler (alloc flags in the postcondition of subscribe); closures outside the handler must read exactly as recorded"),
     "C14": ("", "pullable profile (c.pullable): no-unrequested-data gate and outstanding-demand invariant parts"),
     "C15": ("", "iterator-order, one-next-per-item and no-nested-delivery (ddepth) obligations on the extracted loop closure with a loop invariant"),
@@ -57,7 +57,7 @@ for pid, (ops_note, text) in sorted(CLAIMS.items()):
         "replay_cmd_template": "python3 bin/replay.py {path}",
         "engine": "verus-weave",
         "level_claimed": {"category": "proof", "text": f"{text}. Operators under contract: {ops}.", "design_ref": "DESIGN.md 2, 5"},
-        "level_note": (NOTE_T if pid in ("C18", "C19") else NOTE) + ("Histories outside the proved profile of share (nested fan-out, another sink acting during a delivery) are explored on every run by a bounded stand-in (all decision tapes up to length 10 against the real crate), reported separately in the evidence. " if pid in ("C01", "C02", "C03", "C04", "C05", "C12", "C17") else "") + f"Covers: {ops}; operators not listed are not yet under contract for this property.",
+        "level_note": (NOTE_T if pid in ("C18", "C19") else NOTE) + ("Histories outside the proved profile of share (nested fan-out, another sink acting or attaching during a delivery, an upstream that greets late) are explored on every run by a bounded stand-in (all decision tapes up to length 10, from fixed set-ups up to length 16, against the real crate), reported separately in the evidence. " if pid in ("C01", "C02", "C03", "C04", "C05", "C12", "C17") else "") + f"Covers: {ops}; operators not listed are not yet under contract for this property.",
         "technique": TECH_T if pid in ("C18", "C19") else TECH,
     })
 m = {
